@@ -163,14 +163,26 @@ def check_next(rep, http):
                % (tail_assign, head_ok, self_passed))
 
 
-def check_emission(rep, http):
-    # closures passed as endpoint (argument 1) of Next::new
-    under_next = []
+def endpoints_under_next(http):
+    """def paths of the closures / functions passed as the endpoint (argument 1) of Next::new"""
+    out = []
     for f in http.built:
         for bb, t in f.calls('crux_http::middleware::Next::new'):
             for o in origins(f, t['args'][1], through_casts=True):
                 if o.kind == 'agg' and o.stmt['rv'].get('ak') == 'closure':
-                    under_next.append(o.stmt['rv']['def'])
+                    out.append(o.stmt['rv']['def'])
+                elif o.kind == 'const' and o.fn:
+                    out.append(o.fn)  # a function item used as the endpoint
+    return out
+
+
+def is_under(fn, defs):
+    from rules.facts import norm as _n
+    return any(fn.path.startswith(d) or _n(fn.path).startswith(_n(d)) for d in defs)
+
+
+def check_emission(rep, http):
+    under_next = endpoints_under_next(http)
     if not under_next:
         rep.missing('R16.c', 'endpoint closure of Next::new')
         return
@@ -193,7 +205,7 @@ def check_emission(rep, http):
             in_sender_impl = 'EffectSender' in f.path and ('as crux_http::protocol::EffectSender' in f.path or
                                                             path_matches(f.assoc.get('trait'), 'crux_http::protocol::EffectSender'))
             root_is_sender = 'as crux_http::protocol::EffectSender' in (f.root or '')
-            under = any(f.path.startswith(d) for d in under_next)
+            under = is_under(f, under_next)
             if in_sender_impl or root_is_sender:
                 rep.ok('R16.c', key, 'inside the EffectSender implementation')
             elif under:
